@@ -9,17 +9,22 @@ TRUST = ("Trusted: TLC and the CommunityModules Json/IOUtils, rustc/std, the har
          "projections. Bounded: the design check is exhaustive only for the stated small constants; conformance "
          "is exhaustive over the model's transitions (transition tour) and sampled beyond (seeded random).")
 
-# id -> (spec modules, level text, technique, design_ref, extra level_note)
-CLAIMED = {
-    "C01": (["Registry"],
-            "TLC checks the nine independently stated action properties of the scope-chain model (Registry.tla) "
-            "exhaustively for the bounded constants; every transition of the bounded model is then replayed on "
-            "the real StateRegistry (transition tour) and long seeded random histories are recorded, and TLC "
-            "validates every recorded call (arguments, reply, full projected scope chain) as a step of the spec. "
-            "Right level: the property is 'behaves like this abstract object for every history'.",
-            "TLA+ spec + TLC model checking + TLC trace validation of replayed transition tours and random histories",
-            "DESIGN.md §6 C01", "generic code exercised at marker types T1..T3"),
-}
+def load_claims():
+    """Every checks/cNN.py that defines MANIFEST = {modules, text, technique, design_ref, note} is a claim."""
+    import importlib
+    sys.path.insert(0, ROOT)
+    sys.path.insert(0, os.path.join(ROOT, "tools"))
+    claims = {}
+    for fn in sorted(os.listdir(os.path.join(ROOT, "checks"))):
+        if fn.startswith("c") and fn.endswith(".py"):
+            mod = importlib.import_module("checks." + fn[:-3])
+            m = getattr(mod, "MANIFEST", None)
+            if m:
+                claims[fn[:-3].upper()] = (m["modules"], m["text"], m["technique"], m["design_ref"], m.get("note", ""))
+    return claims
+
+
+CLAIMED = load_claims()
 
 PENDING_REASON = "check not built yet in this round (planned, see DESIGN.md §6); not claimed until its spec module is bound to the code"
 
